@@ -29,6 +29,7 @@ RULE = ("accepted filters from the full grammar (parse level) and from the typed
         "case of operator and literal keywords (eq AND Not NULL True in any all duration "
         "geography, T/Z, exponent e, duration designators) flipped at random. distinct = "
         "distinct (filter, variant); non-trivial = variant text differs from the canonical text")
+RULE += (" " + 'Also: one whitespace position stretched to 129..4096 (rarely 70000) characters; whitespace pool with CR, FF, VT and Unicode spaces; every shape of the date-time literal.')
 ASSUMPTIONS = ["function names, identifiers and GUID hex digits are left alone (case sensitive "
                "by specification)",
                "no whitespace is inserted after unary minus, inside f() or at the ends of the "
